@@ -46,8 +46,7 @@ CFGS = {
     # ---- lifecycle ------------------------------------------------------------------------------------------
     "MCLifeQ": mc(LIFE, MaxNotify="2", MaxEnds="0", MaxSaves="0", MaxAcks="0"),
     "MCLifeQ2": mc(LIFE, MaxNotify="1", MaxEnds="2", MaxSaves="0", MaxAcks="1"),
-    "MCLife": mc(LIFE, MaxEnds="1"),
-    "MCLife2": mc(LIFE, MaxNotify="1"),
+    "MCLife": mc(LIFE, MaxNotify="1", MaxEnds="2", MaxSaves="0", MaxAcks="1"),
     # Close() while a save is in flight that then fails: the final save waits for the lock of a save that must put its marks back
     "MCLifeFQ": mc(LIFE, NVB="1", MaxNotify="0", MaxEnds="0", MaxSaves="1", MaxAcks="1", MaxSeq="2", FailSaves="TRUE"),
     "SimLifeF": simc(LIFE, 40, NVB="1", MaxNotify="0", MaxEnds="0", MaxSaves="2", MaxAcks="2", MaxSeq="2", FailSaves="TRUE"),
@@ -113,8 +112,8 @@ CFGS = {
                  Rollbacks="FALSE", MaxCrash="0", MaxSaves="1", MaxAcks="0", AllowClose="TRUE", Focus="TRUE"),
     "WitReplayRm": rep(GEN, RM="TRUE", Slots="2", MaxSeq="4", MaxSaves="10", MaxAcks="10", MaxCrash="0", MaxGen="4", AllowClose="TRUE", Rollbacks="FALSE"),
     "MCMetricQ": mc(LIFE, Scrapes="TRUE", HookScrapes="TRUE", MaxNotify="1", MaxEnds="0", MaxSaves="0", MaxAcks="1", MaxSeq="1", Hold="TRUE", AllowClose="FALSE", AutoCkpt="FALSE"),
-    "MCMetric": mc(LIFE, Scrapes="TRUE", HookScrapes="TRUE", MaxNotify="1", MaxEnds="1", MaxSaves="1", MaxAcks="2", MaxSeq="2", Hold="TRUE",
-                   Kinds='{"mut", "del", "exp", "sys"}', Keys='{"user", "conn"}'),
+    "MCMetric": mc(LIFE, Scrapes="TRUE", HookScrapes="TRUE", MaxNotify="1", MaxEnds="1", MaxSaves="0", MaxAcks="1", MaxSeq="1", Hold="TRUE",
+                   Kinds='{"mut", "del"}', Keys='{"user", "conn"}'),
     "SimMetric": simc(LIFE, 55, Scrapes="TRUE", HookScrapes="TRUE", MaxNotify="2", MaxEnds="2", MaxSaves="2", MaxAcks="3", MaxSeq="3", Hold="TRUE",
                       Kinds='{"mut", "del", "exp", "sys", "adv"}', Keys='{"user", "conn"}', OldEvents="TRUE"),
     "MCFaultQ": mc(FAULT, MaxFail="1"),
